@@ -383,6 +383,9 @@ pub fn scope(name: &str) -> Scope {
         "LP" => Scope::new("LP", &["a", "b", "aa", "ab", "aab", "aba", "abab"], &["*", "?", "+"], false, &['a', 'b']),
         // group nesting: capturing groups around / beside possibly-empty terms
         "NEST" => Scope::new("NEST", &["a", "b?", "c*"], &[], true, &['a', 'b', 'c']),
+        // anchors beside capturing groups in alternations: two matches with the same text
+        // but different group participation
+        "ANCG" => Scope::new("ANCG", &["^", "$", "(a)", "a", "(b)", "b"], &[], false, &['a', 'b', '\n']),
         // a non-capturing group between two capturing levels, possibly-empty inner groups
         "NESTN" => Scope::new("NESTN", &["a", "(b*)", "(?:(b*))", "(?:(b?)c?)", "(?:a|(b*))", "(?:(c?))"], &[], true, &['a', 'b', 'c']),
         // terms that vanish ({0}) or are zero-width under a quantifier, grouped and alternated
@@ -449,6 +452,9 @@ pub const T_XCLS: [&str; 11] = ["a", "b", "\\\\", "\\[", "\\]", "[", "]", "[^", 
 /// Category and block escapes inside and outside character groups (whitespace
 /// between the braces is never layout).
 pub const T_XESC: [&str; 11] = ["[", "]", "[^", "-[", "\\p{L}", "\\P{Lu}", "\\p{IsGreek}", "a", "\\d", "(", ")"];
+
+/// Class syntax: ranges whose ends are escapes, hyphens in every position, subtraction.
+pub const T_CLS: [&str; 9] = ["[", "[^", "]", "-", "-[", "a", "b", "\\d", "\\-"];
 
 pub fn tokens_to_string(alphabet: &[&str], digits: &[usize]) -> String {
     let mut s = String::new();
